@@ -331,3 +331,61 @@ func H13b_history() {
 	vrtCheckQueue(aq, abs)
 	vrtReach("C13.history")
 }
+
+// H13_wait_unencodable: a request that cannot be encoded (a QoS 1 PUBLISH
+// without a topic name) is not registered: the queue is exactly what it was,
+// its identifier stays free, and what is registered later is still released.
+func H13_wait_unencodable() {
+	aq, abs := vrtArbitraryQueue()
+	id := vrtUint16("newid")
+	vrtAssume(id != 0)
+	vrtAssume(vrtFind(abs, id) < 0)
+	m := message.NewPublishMessage()
+	m.SetQoS(1)
+	m.SetPacketID(id)
+	buf := make([]byte, 16)
+	if _, err := m.Encode(buf); err == nil {
+		vrtAssert("C13.harness_unencodable", false)
+		return
+	}
+	aq.Wait(m, nil)
+	vrtCheckQueue(aq, abs)
+	_, found := aq.emap[id]
+	vrtAssert("C13.failed_registration_leaves_identifier_free", !found)
+	vrtReach("C13.unencodable")
+}
+
+// H13c_ack_during_wait: the processor acknowledges a request (Ack) while the
+// application registers the next one (Wait) on a full, wrapped ring - so the
+// ring grows and every entry moves - under the exploring scheduler: in every
+// interleaving at the queue's mutex operations the acknowledgement lands on
+// the request with its identifier and the queue is the model's.
+func H13c_ack_during_wait() {
+	aq := newAckqueue(2)
+	// a full ring whose head is at slot 1: entries a (slot 1), b (slot 0)
+	ida, idb := uint16(5), uint16(6)
+	ma, _ := vrtRequest(0, ida)
+	mb, _ := vrtRequest(0, idb)
+	wa, wb := vrtWire(ma), vrtWire(mb)
+	aq.head, aq.tail, aq.count = 1, 1, 2
+	aq.ring[1] = AckMsg{Mtype: 3, Pktid: ida, Msgbuf: append([]byte(nil), wa...)}
+	aq.ring[0] = AckMsg{Mtype: 3, Pktid: idb, Msgbuf: append([]byte(nil), wb...)}
+	aq.emap[ida], aq.emap[idb] = 1, 0
+	which := vrtChoice("acked", 2)
+	ackid := []uint16{ida, idb}[which]
+	ack := message.NewPubackMessage()
+	ack.SetPacketID(ackid)
+	wack := vrtWire(ack)
+	mc, _ := vrtRequest(0, 7)
+	wc := vrtWire(mc)
+	var e1, e2 error
+	vrtGo(func() { e1 = aq.Ack(ack) })
+	vrtGo(func() { e2 = aq.Wait(mc, nil) })
+	vrtJoin()
+	vrtAssert("C13.ack_ok", e1 == nil)
+	vrtAssert("C13.wait_ok", e2 == nil)
+	abs := []vrtEnt{{id: ida, typ: 3, msg: wa}, {id: idb, typ: 3, msg: wb}, {id: 7, typ: 3, msg: wc}}
+	abs[which].state, abs[which].ack = 4, wack
+	vrtCheckQueue(aq, abs)
+	vrtReach("C13.ack_during_wait")
+}
